@@ -37,6 +37,11 @@ def history(ctx):
             for bn in b.namespaces:
                 for dn in scopes[0].namespaces:
                     ctx.finding("C03.bundle_shadows_parent_prefix", bn.prefix == dn.prefix and bn.uri != dn.uri)
+            # ... the same for the empty prefix: bundle and document both have a default namespace, and they differ
+            bd = b.get_default_namespace()
+            dd = scopes[0].get_default_namespace()
+            if bd is not None and dd is not None:
+                ctx.finding("C03.bundle_shadows_parent_prefix", bd.uri != dd.uri)
 
     def seen(p=None, u=None):
         # region of open finding C03.uri_scheme_is_prefix: a namespace URI that starts with '<prefix in play>:'
